@@ -38,6 +38,12 @@ def raw_equiv(t):
 def z(t): return wrap(strip_trunc(raw_equiv(t)), 256)
 
 def run(ctx, rep):
+    _run(ctx, rep)
+    if ctx.tier == 'thorough':
+        import witness
+        witness.check(rep, ctx, ['C01FadtTypestate', 'C01FadtConstruction'])
+
+def _run(ctx, rep):
     f = ctx.facts
     tables = all_tables(f)
     rep.floor('tables with a TableHeader', len(tables), 18)
